@@ -11,6 +11,7 @@ import WowVerif.Model.Geometry
 import WowVerif.Model.SemIO
 import WowVerif.Model.SemNorm
 import WowVerif.Model.Session
+import WowVerif.Model.ChunkSem
 import WowVerif.Model.SemSize
 import WowVerif.Model.SemLimits
 import WowVerif.Model.UpdateMask
@@ -538,6 +539,24 @@ def loadLine (st : DState) (line : String) : DState :=
 def semHandle (st : DState) (ws : List String) : Option String :=
   match ws with
   | ["wskeys"] => some s!"{st.wsprogs.size}"
+  | ["chunkdef", key, sched] =>
+    -- C06 (Thm/C06b.lean): the read_exact script compiled from the definition (after one opcode byte) run by the CHUNKED semantics over the
+    -- given delivery schedule; `scriptable=0` when the definition needs to know where the input ends or mentions a built-in type
+    match st.corpus.get? key with
+    | some (_, c) =>
+      let steps : Option (List (Option (List UInt8))) :=
+        if sched == "-" then some [] else (sched.splitOn ",").mapM fun (t : String) => if t == "p" then some none else (unhex t).map some
+      match steps with
+      | none => some "bad-op"
+      | some cs =>
+        if !Chunk.scriptMs c then some "scriptable=0" else
+        let total := (Chunk.flatten cs).length
+        let script : Chunk.Dec (List Sem.Val) := .need 1 fun _ => Chunk.decodeD (total + 1) c
+        match Chunk.runChunked script [] cs with
+        | .ok (_, rest) => some s!"ok n={total - rest.length} scriptable=1"
+        | .error .unexpectedEof => some "eof scriptable=1"
+        | .error _ => some "err scriptable=1"
+    | none => some "nokey"
   | ["session", e, d, items] =>
     -- C02 + C01 end to end (Model/Session.lean; Thm/C02c.lean): a stream of arbitrary messages — `g:key:seed:maxLen` a generated canonical
     -- value of container `key`, `u:opcode:len` a frame with an opcode outside the table, `x:key:hex` the opcode of `key` over the given
